@@ -84,6 +84,19 @@ fn run_generic(mode: Mode, args: &Args, prefix: &str, rule: &str) {
 			cx.oracle.check(r == Ok((4 + (1 << 26), vec![0xfe, 0xff, 0xff, 0x7f], true)), "encode-of-representable-count-fails", || format!("BitVec of 2^29-1 bits: {:?}", r));
 		}
 	}
+	#[cfg(not(feature = "no-opt"))]
+	if mode == Mode::C03 && args.only.is_none() {
+		// one bit more than the format allows, with the whole promised payload present
+		use parity_scale_codec::{Compact, Decode, Encode};
+		let bits = 1u32 << 29;
+		let mut inp = Compact(bits).encode();
+		inp.resize(inp.len() + (bits as usize / 8), 0);
+		let r = std::panic::catch_unwind(std::panic::AssertUnwindSafe(|| BitVec::<u8, Lsb0>::decode(&mut &inp[..]).map(|v| v.len()).ok())).map_err(drop);
+		cx.stats.bump("bits/2^29-with-payload");
+		cx.oracle.check(r == Ok(None), "overlong-bit-sequence-accepted", || format!("BitVec<u8,Lsb0> from Compact(2^29) ++ 64 MiB of zeros: {:?} (the model rejects 2^29 bits)", r));
+		let r = std::panic::catch_unwind(std::panic::AssertUnwindSafe(|| bitvec::boxed::BitBox::<u32, Lsb0>::decode(&mut &inp[..]).map(|v| v.len()).ok())).map_err(drop);
+		cx.oracle.check(r == Ok(None), "overlong-bit-sequence-accepted", || format!("BitBox<u32,Lsb0> from Compact(2^29) ++ 64 MiB of zeros: {:?}", r));
+	}
 	if mode == Mode::C19 && args.only.is_none() {
 		// one read of 4 GiB through the counter (the count must not wrap at 2^32): the buffer is
 		// unreserved address space from the harness allocator and the input writes nothing into it
